@@ -112,7 +112,8 @@ Proof.
   assert (S : safe_new src_tables = true) by (vm_compute; reflexivity).
   split.
   - intros req fs fs' rep e H. exact (save_new_preserves _ S _ _ _ _ _ _ _ _ H).
-  - intros req n fs fs' rep e H. exact (flow_dask_from_preserves _ S _ _ _ _ _ _ _ _ H).
+  - intros req n fs fs' rep e H. apply flow_dask_cases in H. destruct H as [(-> & _ & _)|H]; [auto|].
+    exact (flow_dask_from_preserves _ S _ _ _ _ _ _ _ _ H).
 Qed.
 Print Assumptions C19_flows_never_clobber.
 
@@ -144,7 +145,8 @@ Proof.
     apply (save_new_attributed src_tables (items req) None fs [] fs' rep e); auto.
     + now apply fresh_good.
     + intros r b f n [].
-  - intros req n fs fs' rep e F H.
+  - intros req n fs fs' rep e F H. apply flow_dask_cases in H.
+    destruct H as [(_ & -> & _)|H]; [intros r b f m []|].
     apply (flow_dask_from_attributed src_tables req n 0 fs [] fs' rep e); auto.
     + now apply fresh_good.
     + intros r b f m [].
@@ -168,7 +170,9 @@ Proof.
   split.
   - intros req fs fs' rep H r b f n. apply save_new_complete in H. subst rep. simpl.
     apply in_new_entries.
-  - intros req nruns fs fs' rep H r b f n. apply flow_dask_from_complete in H. subst rep. simpl.
+  - intros req nruns fs fs' rep H r b f n. apply flow_dask_cases in H.
+    destruct H as [(_ & _ & X)|H]; [congruence|].
+    apply flow_dask_from_complete in H. subst rep. simpl.
     rewrite in_flat_map. split.
     + intros [x [Hx Hin]]. apply in_seq in Hx. apply in_new_entries in Hin.
       destruct Hin as (-> & Hin & ->). repeat split; auto; lia.
